@@ -848,4 +848,185 @@ theorem Ready.claim {s : Mpp} {a d : Nat} (h : Ready s a d) (known : Bool) :
     unfold stepClaim
     simp only [hne, Bool.false_eq_true, ↓reduceIte, Bool.not_false, hk, Bool.and_self]
 
+/-- the held parts that carry the mark of an announced set -/
+def marked (ps : List Part) : List Part := ps.filter (·.totalRecv.isSome)
+
+/-- part of the last announced set is gone: what is left of it is worth less than was announced -/
+def Short (s : Mpp) : Prop := ∀ x, (∃ p ∈ s.parts, p.totalRecv = some x) → sumValue (marked s.parts) < x
+
+theorem sumValue_filter_lost (l : List Part) (f : Part → Bool) (q : Part) (hq : q ∈ l) (hf : f q = false) :
+    sumValue (l.filter f) + q.value ≤ sumValue l := by
+  induction l with
+  | nil => cases hq
+  | cons p ps ih =>
+    simp only [List.mem_cons] at hq
+    rcases hq with rfl | hq
+    · simp only [List.filter_cons, hf, Bool.false_eq_true, ↓reduceIte]
+      have := sumValue_filter_le ps f
+      simp only [sumValue, List.map_cons, List.sum_cons] at *
+      omega
+    · have := ih hq
+      simp only [List.filter_cons]
+      split <;> simp only [sumValue, List.map_cons, List.sum_cons] at * <;> omega
+
+theorem Inv.marked_le {s : Mpp} (h : Inv s) (x : Nat) (p : Part) (hp : p ∈ s.parts) (hx : p.totalRecv = some x) :
+    sumValue (marked s.parts) ≤ x ∧ ∀ q ∈ s.parts, ∀ y, q.totalRecv = some y → y = x := by
+  obtain ⟨x', A, B, hAB, hA, hB, hle⟩ := h.order
+  have hpA : p ∈ A := by
+    rw [hAB, List.mem_append] at hp
+    rcases hp with hp | hp
+    · exact hp
+    · rw [hB p hp] at hx; cases hx
+  have hxx : x' = x := by have := hA p hpA; rw [hx] at this; cases this; rfl
+  subst hxx
+  have hm : marked s.parts = A := by
+    rw [hAB, marked, List.filter_append]
+    have h1 : A.filter (·.totalRecv.isSome) = A := by
+      rw [List.filter_eq_self]; intro a ha; simp [hA a ha]
+    have h2 : B.filter (·.totalRecv.isSome) = [] := by
+      rw [List.filter_eq_nil_iff]; intro a ha; simp [hB a ha]
+    rw [h1, h2, List.append_nil]
+  refine ⟨by rw [hm]; exact hle, ?_⟩
+  intro q hq y hy
+  rw [hAB, List.mem_append] at hq
+  rcases hq with hq | hq
+  · have := hA q hq; rw [hy] at this; cases this; rfl
+  · rw [hB q hq] at hy; cases hy
+
+/-- an on-chain timeout that takes a marked part of positive value leaves the set short -/
+theorem Short.of_block {s : Mpp} (h : Inv s) (ht : Nat) (q : Part) (hq : q ∈ s.parts) (x : Nat)
+    (hx : q.totalRecv = some x) (hpos : 0 < q.value) (hto : mppOnchainTimeout ht q.cltv = true) :
+    Short (stepBlock s ht).1 := by
+  intro y ⟨p, hp, hy⟩
+  simp only [stepBlock, List.mem_filter] at hp
+  obtain ⟨hle, hsame⟩ := h.marked_le x q hq hx
+  have hyx := hsame p hp.1 y hy
+  subst hyx
+  simp only [stepBlock, marked]
+  rw [List.filter_filter]
+  have hcomm : s.parts.filter (fun a => a.totalRecv.isSome && !mppOnchainTimeout ht a.cltv) =
+      (marked s.parts).filter (fun a => !mppOnchainTimeout ht a.cltv) := by
+    rw [marked, List.filter_filter]
+    congr 1; funext a; exact Bool.and_comm _ _
+  rw [hcomm]
+  have hqm : q ∈ marked s.parts := by simp [marked, hq, hx]
+  have := sumValue_filter_lost (marked s.parts) (fun a => !mppOnchainTimeout ht a.cltv) q hqm (by simp [hto])
+  omega
+
+theorem marked_tick (l : List Part) :
+    sumValue (marked (l.map fun q => { q with ticks := q.ticks + 1 })) = sumValue (marked l) := by
+  induction l with
+  | nil => rfl
+  | cons p ps ih =>
+    simp only [marked, List.map_cons, List.filter_cons] at *
+    split <;> simp only [sumValue, List.map_cons, List.sum_cons] at * <;> omega
+
+theorem marked_append_none (l : List Part) (p : Part) (hp : p.totalRecv = none) : marked (l ++ [p]) = marked l := by
+  simp [marked, List.filter_append, hp]
+
+/-- the three outcomes of a `part` step -/
+theorem stepPart_trichotomy (s : Mpp) (p : Part) :
+    stepPart s p = (s, [.failPart p.id]) ∨
+    (∃ total tag ev a d, stepPart s p =
+      ({ s with parts := completedParts s p, total := total, tag := tag, evenTlv := ev }, [.claimable a d])) ∨
+    (∃ total tag ev, stepPart s p =
+      ({ s with parts := s.parts ++ [p], total := total, tag := tag, evenTlv := ev }, [])) := by
+  obtain ⟨total, tag, ev, _, _, heq⟩ := stepPart_normal s p
+  rw [heq]
+  split
+  · exact Or.inl rfl
+  · split
+    · exact Or.inl rfl
+    · split
+      · exact Or.inl rfl
+      · split
+        · exact Or.inl rfl
+        · split
+          · exact Or.inr (Or.inl ⟨total, tag, ev, _, _, rfl⟩)
+          · exact Or.inr (Or.inr ⟨total, tag, ev, rfl⟩)
+
+/-- a short set stays short as long as no new complete set is announced -/
+theorem Short.preserved {s : Mpp} (hs : Short s) (op : Op) (hno : ∀ a d, Out.claimable a d ∉ (step s op).2) :
+    Short (step s op).1 := by
+  cases op with
+  | part id value intended total cltv tag ev =>
+    simp only [step] at hno ⊢
+    rcases stepPart_trichotomy s { id, value, intended, cltv, ticks := 0, totalRecv := none, total, tag, evenTlv := ev }
+      with h1 | ⟨t, g, e, a, d, h1⟩ | ⟨t, g, e, h1⟩ <;> rw [h1] at hno ⊢
+    · exact hs
+    · exact absurd (List.mem_singleton.2 rfl) (hno a d)
+    · intro x ⟨p, hp, hx⟩
+      simp only [List.mem_append, List.mem_singleton] at hp
+      simp only
+      rw [marked_append_none _ _ rfl]
+      rcases hp with hp | rfl
+      · exact hs x ⟨p, hp, hx⟩
+      · cases hx
+  | tick =>
+    simp only [step, stepTick]
+    have hmap : Short { s with parts := s.parts.map fun q => { q with ticks := q.ticks + 1 } } := by
+      intro x ⟨p, hp, hx⟩
+      simp only [List.mem_map] at hp
+      obtain ⟨p0, hp0, rfl⟩ := hp
+      simp only [marked_tick]
+      exact hs x ⟨p0, hp0, hx⟩
+    split
+    · exact hs
+    · split
+      · exact hmap
+      · split
+        · intro x ⟨p, hp, _⟩; cases hp
+        · exact hmap
+  | block ht =>
+    simp only [step, stepBlock]
+    intro x ⟨p, hp, hx⟩
+    simp only [List.mem_filter] at hp
+    have := hs x ⟨p, hp.1, hx⟩
+    have hcomm : marked (s.parts.filter fun q => !mppOnchainTimeout ht q.cltv) =
+        (marked s.parts).filter (fun a => !mppOnchainTimeout ht a.cltv) := by
+      simp only [marked, List.filter_filter]
+      congr 1; funext a; exact Bool.and_comm _ _
+    simp only [hcomm]
+    have := sumValue_filter_le (marked s.parts) (fun a => !mppOnchainTimeout ht a.cltv)
+    omega
+  | claim known =>
+    intro x ⟨p, hp, _⟩
+    simp only [step, stepClaim_parts] at hp
+    cases hp
+  | claimDone => exact hs
+  | failBack => intro x ⟨p, hp, _⟩; simp [step, stepFailBack] at hp
+
+/-- claiming a short set releases no preimage -/
+theorem Short.claim_none {s : Mpp} (hi : Inv s) (hs : Short s) (known : Bool) (i : Nat) :
+    Out.fulfilPart i ∉ (stepClaim s known).2 := by
+  intro hmem
+  rcases stepClaim_outs s known with h1 | h1 | h1 | h1 | ⟨amt, h1, hl, _, hne, _⟩ <;> rw [h1] at hmem
+  · simp at hmem
+  · simp at hmem
+  · simp at hmem
+  · simp at hmem
+  · obtain ⟨hall, hsum⟩ := claim_success_inv hi amt hl
+    obtain ⟨p, hp⟩ := List.exists_mem_of_ne_nil _ hne
+    have := hs amt ⟨p, hp, hall p hp⟩
+    have hm : marked s.parts = s.parts := by
+      rw [marked, List.filter_eq_self]; intro a ha; simp [hall a ha]
+    rw [hm] at this
+    omega
+
+/-- only a claim releases preimages -/
+theorem fulfil_only_from_claim (s : Mpp) (op : Op) (i : Nat) (h : Out.fulfilPart i ∈ (step s op).2) :
+    ∃ known, op = .claim known := by
+  cases op with
+  | part id value intended total cltv tag ev =>
+    simp only [step] at h
+    rcases stepPart_trichotomy s { id, value, intended, cltv, ticks := 0, totalRecv := none, total, tag, evenTlv := ev }
+      with h1 | ⟨t, g, e, a, d, h1⟩ | ⟨t, g, e, h1⟩ <;> rw [h1] at h <;> simp at h
+  | tick =>
+    simp only [step] at h
+    rcases stepTick_outs s with ⟨h1, _⟩ | ⟨h1, _⟩ <;> rw [h1] at h <;> simp at h
+  | block ht => simp [step, stepBlock] at h
+  | claim known => exact ⟨known, rfl⟩
+  | claimDone => simp [step] at h
+  | failBack => simp [step, stepFailBack] at h
+
 end Ldk.InboundPay
